@@ -471,3 +471,177 @@ def errset(P, resolver, entry_quals, variants, env=None):
             r.bad('variant-unreachable:' + v, 'error variant MlsError::%s is no longer constructed in code reachable from %s '
                   '(the check that raised it is gone or disconnected)' % (v, ', '.join(entry_quals)))
     return r
+
+
+# ------------------------------------------------------------------------------ MUST-PASS (alternatives, from a start point)
+def must_pass_from(P, fn_qual, from_rx, callee_rx):
+    """every path from (the return of) a call matching `from_rx` to a success return passes a checked call matching callee_rx"""
+    fn = P.fn(fn_qual)
+    body = P.body(fn)
+    frx, rx = re.compile(from_rx), re.compile(callee_rx)
+    starts = [body.term(bi)['t'] for bi, t in body.calls(lambda t: call_matches(t, frx)) if body.term(bi)['t'] >= 0]
+    if not starts:
+        raise AnchorMissing('`%s` has no call matching %s' % (fn_qual, from_rx))
+    r = Res()
+    barriers = set()
+    for bi, t in body.calls(lambda t: call_matches(t, rx)):
+        passes, why = checked_pass_blocks(body, bi)
+        r.site('%s @%s (%s)' % (fn['qual'], body.ln(bi), why))
+        if not passes:
+            r.bad('result-dropped', 'in `%s` the result of %s is not checked' % (fn['qual'], callee_name(t)), where=[body.ln(bi)])
+        barriers |= passes
+    if not r.sites:
+        r.bad('call-missing', '`%s` no longer calls %s' % (fn['qual'], callee_rx))
+        return r
+    avoid = barriers | set(body.err_blocks)
+    reach = body.reach(starts, avoid)
+    rets = [bi for bi in reach if body.term(bi)['k'] == 'return']
+    if rets:
+        r.bad('bypass', 'in `%s` a path from %s reaches a success return without a successful %s'
+              % (fn['qual'], from_rx, callee_rx), where=[body.ln(b) for b in rets[:3]])
+    return r
+
+
+# ------------------------------------------------------------------------------ COVERS
+def covers(P, fn_qual, t_short, s_short, exclude=(), root='self', extra=None):
+    """the signed / MACed / AAD struct T built in F carries every field of S (minus `exclude`), each taken from
+    `root.<same field>`; `extra` = {field: origin regex} for fields of T that do not come from S"""
+    fn = P.fn(fn_qual)
+    body = P.body(fn)
+    o = Origins(body)
+    tf = P.fields(t_short)
+    sf = [f for f in P.fields(s_short) if f not in exclude]
+    r = Res()
+    agg = None
+    tpath = P.adt(t_short)['path']
+    for bi, b in enumerate(body.B):
+        for st in b['st']:
+            rv = st['rv']
+            if rv['k'] == 'agg' and rv['what'].startswith('adt:' + tpath + '::'):
+                agg = (rv, st['ln'])
+    if agg is None:
+        raise AnchorMissing('`%s` does not build a %s' % (fn_qual, t_short))
+    rv, ln = agg
+    got = {n: o.op_str(op) for n, op in zip(rv['names'], rv['ops'])}
+    for f in sf:
+        r.site('%s.%s <- %s' % (t_short, f, got.get(f, '<absent>')[:80]))
+        if f not in tf:
+            r.bad('uncovered-field:' + f, 'field `%s` of %s is not part of %s: it is not covered by the signature / MAC / AAD, '
+                  'so it can be modified without detection' % (f, s_short, t_short), where=[ln])
+        elif not re.search(r'^%s\.%s\b' % (re.escape(root), re.escape(f)), got.get(f, '')):
+            r.bad('miswired-field:' + f, '%s.%s is built from `%s`, expected %s.%s' % (t_short, f, got.get(f, ''), root, f), where=[ln])
+    for f, rx in (extra or {}).items():
+        r.site('%s.%s <- %s' % (t_short, f, got.get(f, '<absent>')[:80]))
+        if f not in got or not re.search(rx, got[f]):
+            r.bad('miswired-field:' + f, '%s.%s is built from `%s`, expected origin /%s/' % (t_short, f, got.get(f, '<absent>'), rx), where=[ln])
+    return r
+
+
+# ------------------------------------------------------------------------------ writes dominated by a guard
+def writes_after_guard(P, fn_qual, rel, a_rx, b_rx=None, root_local=1):
+    """every assignment through the receiver (`self.x = ..`) in F is unreachable unless the guard has passed"""
+    fn = P.fn(fn_qual)
+    body = P.body(fn)
+    gs = [g for g in GuardExtractor(body).guards() if g.matches(rel, a_rx, b_rx) and g.idiom == 'branch']
+    if not gs:
+        raise AnchorMissing('`%s` has no branch guard [%s %s %s]' % (fn_qual, a_rx, rel, b_rx))
+    g = gs[0]
+    t = body.term(g.block)
+    pass_blocks = [s for s in body.succs(g.block) if s != g.fail_block]
+    reach = body.reach([0], set(pass_blocks))
+    r = Res()
+    for bi, b in enumerate(body.B):
+        if b.get('cu'):
+            continue
+        for st in b['st']:
+            lhs = st['lhs']
+            if lhs['l'] == root_local and '*' in lhs['p'] and any(e.startswith('.') for e in lhs['p']):
+                r.site('%s @%s' % (fn['qual'], st['ln']))
+                if bi in reach:
+                    r.bad('write-before-guard', 'in `%s` the receiver is written at %s on a path that has not passed the check [%s]'
+                          % (fn['qual'], st['ln'], g.text()[:120]), where=[st['ln'], g.ln])
+    return r
+
+
+# ------------------------------------------------------------------------------ inventories (reference = today's reviewed tree)
+def guard_inventory(P, fn_rx):
+    """{fn qual: Counter((rel, errs))} for all functions whose qual matches fn_rx"""
+    rx = re.compile(fn_rx)
+    out = {}
+    for fn in P.fns.values():
+        if not rx.search(fn['qual']) or fn['crate'] not in ('mls_rs', 'mls_rs_core', 'mls_rs_codec', 'mls_rs_identity_x509', 'mls_rs_provider_sqlite'):
+            continue
+        gs = guards_of(P, fn)
+        if gs:
+            c = collections.Counter()
+            for g in gs:
+                c['%s => %s' % (g.rel, ','.join(sorted(g.errs)))] += 1
+            out[fn['qual']] = dict(c)
+    return out
+
+
+def err_inventory(P, fn_rx, enum_rx=r'(MlsError|mls_rs_codec::Error)'):
+    """{fn qual: sorted error variants constructed in the function or its closures}"""
+    rx = re.compile(fn_rx)
+    erx = re.compile(enum_rx)
+    out = collections.defaultdict(set)
+    for fn in P.fns.values():
+        oq = owner_qual(P, fn)
+        if not rx.search(oq):
+            continue
+        for b in fn['blocks']:
+            if b.get('cu'):
+                continue
+            for st in b['st']:
+                rv = st['rv']
+                if rv['k'] == 'agg' and rv['what'].startswith('adt:') and erx.search(rv['what']):
+                    out[oq].add(rv['what'].split('::')[-1])
+    return {k: sorted(v) for k, v in out.items()}
+
+
+def inventory_check(current, baseline, what, describe):
+    """every baseline entry must still be present (additions are fine)"""
+    r = Res()
+    for fnq, items in sorted(baseline.items()):
+        cur = current.get(fnq)
+        if isinstance(items, dict):
+            for k, n in sorted(items.items()):
+                r.site('%s: %s x%d' % (fnq, k, n))
+                have = (cur or {}).get(k, 0)
+                if have < n:
+                    r.bad('fn=%s|%s=%s' % (fnq, what, k), describe(fnq, k, n, have, cur))
+        else:
+            for k in items:
+                r.site('%s: %s' % (fnq, k))
+                if cur is None or k not in cur:
+                    r.bad('fn=%s|%s=%s' % (fnq, what, k), describe(fnq, k, 1, 0, cur))
+    return r
+
+
+# ------------------------------------------------------------------------------ CHECKED-CALL
+def checked_calls(P, callee_rx, fn_rx=None, allow_unchecked=()):
+    """every call site (program-wide, or in functions matching fn_rx) of a callee matching callee_rx has its
+    Result checked in place (`?`, match, return) -- it is not dropped, stored, or handed to a combinator that may swallow it"""
+    rx = re.compile(callee_rx)
+    frx = re.compile(fn_rx) if fn_rx else None
+    r = Res()
+    for fn in P.fns.values():
+        if frx and not frx.search(fn['qual']):
+            continue
+        body = None
+        for bi, b in enumerate(fn['blocks']):
+            if b.get('cu'):
+                continue
+            t = b['term']
+            if t['k'] != 'call' or not call_matches(t, rx):
+                continue
+            if body is None:
+                body = P.body(fn)
+            passes, why = checked_pass_blocks(body, bi)
+            oq = owner_qual(P, fn)
+            r.site('%s @%s (%s)' % (oq, b['ln'], why))
+            if not passes and oq not in allow_unchecked:
+                r.bad('unchecked:%s|callee=%s' % (oq, callee_name(t)),
+                      'in `%s` the result of %s is not checked in place (%s): its failure can be swallowed or deferred'
+                      % (oq, callee_name(t), why), where=[b['ln']])
+    return r
